@@ -1,10 +1,56 @@
-(* C15: an interrupted Markov level resumes at the very next guess (work in progress). *)
+(* C15: an interrupted Markov level resumes at the very next guess. *)
 From Coq Require Import List Bool NArith ZArith.
-From Pcfg Require Import OmenSpec Omen OmenCorr.
+From Pcfg Require Import OmenSpec Omen OmenCorr OmenProofs OmenProofs2 OmenProofs3 OmenProofs4 OmenProofs5.
 From PcfgGen Require Import Consts_gen.
 Import ListNotations.
 
-Theorem C15_state_roundtrip :
-  forall st : mc_state, mc_started st = true -> mc_load (mc_save st) = st.
-Proof. intros [T s l i t f] H; simpl in *; subst; reflexivity. Qed.
+Theorem C15_source_first_object_range : omen_first_object_extra <= 1.
+Proof. unfold omen_first_object_extra. repeat constructor. Qed.
+
+(* save_session / load_session (pickle = identity, trusted) *)
+Theorem C15_state_roundtrip : forall st : mc_state, mc_started st = true -> mc_load (mc_save st) = st.
+Proof. exact state_roundtrip. Qed.
+
+(* the state after the (j+1)-th guess of a level (whatever the session's cache
+   held), saved and loaded into a new cracker and run with ANY sound cache -- in
+   particular the empty one of the new process -- emits exactly the remaining
+   strings of the level, none repeated, none skipped, and then None *)
+Theorem C15_continuation : forall G T c c2 j starts l o st c1,
+  cache_ok (cp_fast G) (og_max_level G) c -> cache_ok (cp_fast G) (og_max_level G) c2 ->
+  mc_starts (ip_at G) (ln_at G) (og_max_level G) omen_first_object_extra = Some starts ->
+  j < length (level_strings G T) ->
+  m_enumerate G (cp_fast G) (S j) c T = Some (l, o, st, c1) ->
+  l = firstn (S j) (level_strings G T) /\
+  mc_load (mc_save st) = st /\
+  exists st' c',
+    mc_run (ip_at G) (cp_fast G) (ln_at G) (og_max_level G) omen_optimizer_max_length
+           (S (length (skipn (S j) (level_strings G T)))) (mc_fuel (ip_at G) (ln_at G) (og_max_level G))
+           starts c2 (mc_load (mc_save st)) =
+    (skipn (S j) (level_strings G T), Done, st', c').
+Proof.
+  exact (fun G => continuation G omen_optimizer_max_length omen_first_object_extra C15_source_first_object_range).
+Qed.
+
+Theorem C15_empty_cache_is_sound : forall cpf maxl, cache_ok cpf maxl cempty.
+Proof. exact cache_ok_empty. Qed.
+
+(* no-replay requirement: once the level has been restored, a later quit
+   outside a Markov level followed by a resume must not restore it again.
+   It holds iff the code removes guessing_info/omen_guess_number. *)
+Theorem C15_no_replay : omen_number_cleared = true -> forall cfg n s,
+  fst (sess_restore omen_number_cleared (sess_quit (snd (sess_restore omen_number_cleared cfg)) false n s)) = None.
+Proof. intros ->. exact no_replay_when_cleared. Qed.
+
+(* R7: as coded the option is never removed and the stale .omn is restored again *)
+Theorem C15_refuted_stale : omen_number_cleared = false -> forall n1 s1 n2 s2,
+  fst (sess_restore omen_number_cleared
+         (sess_quit (snd (sess_restore omen_number_cleared (sess_quit sess_empty true n1 s1))) false n2 s2)) = Some s1.
+Proof. intros ->. exact stale_replay_when_not_cleared. Qed.
+
+(* R18: a quit seen inside the last pre-terminal of the run is never saved *)
+Theorem C15_refuted_last_preterminal : loop_saves false true = false.
+Proof. exact last_preterminal_not_saved. Qed.
+
+Print Assumptions C15_continuation.
 Print Assumptions C15_state_roundtrip.
+Print Assumptions C15_refuted_stale.
